@@ -4,7 +4,9 @@ package main
 //
 // Three streams, all against the REAL lexer/parser/compiler of /repo:
 //   layout  : generated programs x layout variants at every token gap (spaces, tabs, block
-//             comments, line comments at line ends, blank lines, CRLF, permitted line breaks);
+//             comments — one or several per gap, bodies beginning with `/` included —, line
+//             comments at line ends, also after block comments, blank lines, CRLF, permitted
+//             line breaks);
 //             Spec = the variant parses to the same Program.String() and compiles to the same
 //             bytecode.  Every variant is also lexed by the real lexer and by the Lean lexer
 //             model (token type, literal, start/end Char/Line/Column/LineStart) = Impl.
@@ -38,12 +40,13 @@ import (
 
 func init() { commands["C20"] = c20_runC20 }
 
+// The two block-comment defects of the lexer (C20-adjacent-comments,
+// C20-block-comment-body-starting-with-slash) are repaired: no case is attributed to them any
+// more, a recurrence is an unlisted violation (and a lexer-model mismatch).
 const (
-	c20_fAdjacent  = "C20-adjacent-comments"
-	c20_fEOFLine   = "C20-eof-quotes-previous-line"
-	c20_fNoPos     = "C20-compile-error-without-position"
-	c20_fSlashBody = "C20-block-comment-body-starting-with-slash"
-	c20_fEOF2      = "C20-error-at-second-eof-column"
+	c20_fEOFLine = "C20-eof-quotes-previous-line"
+	c20_fNoPos   = "C20-compile-error-without-position"
+	c20_fEOF2    = "C20-error-at-second-eof-column"
 )
 
 // ---------------------------------------------------------------- real lexer
@@ -576,20 +579,10 @@ func c20Block(r *RNG, multiline bool) string {
 	if multiline {
 		body += "\n" + Pick(r, c20CommentBodies)
 	}
-	if r.Chance(2) && c20_isASCII(body) {
-		body = "/" + body // the recorded defect: `/*/` is taken for a complete comment
+	if r.Chance(15) {
+		body = "/" + body // `/*/` is not a complete comment (repaired defect)
 	}
 	return "/*" + body + "*/"
-}
-
-// comment text for the recorded defects: its body is lexed as tokens, so keep it inside the
-// lexer model's alphabet (ASCII)
-func c20BlockASCII(r *RNG) string {
-	for {
-		if s := c20Block(r, false); c20_isASCII(s) && !strings.Contains(s, "/*/") {
-			return s
-		}
-	}
 }
 
 func c20LineComment(r *RNG) string {
@@ -657,26 +650,33 @@ func c20Insertion(r *RNG, g c20Gap, kind string) (c20Ins, bool) {
 			s += "\n" // several newlines are eaten alike
 		}
 		return c20Ins{g.Off, s, kind + ":" + g.BreakWhy}, true
-	case "adjacent": // the recorded defect: a block comment followed by another comment in the same gap
-		s := c20BlockASCII(r)
-		if r.Bool() {
-			s += c20Blanks(r)
-		}
-		if g.LineEnd && r.Chance(40) {
-			lc := c20LineComment(r)
-			for !c20_isASCII(lc) {
-				lc = c20LineComment(r)
+	case "comments": // several comments in one gap (repaired defect: only the first block comment was skipped)
+		var sb strings.Builder
+		n := 2 + r.Intn(3)
+		lineEnd := g.LineEnd && r.Chance(40)
+		for k := 0; k < n; k++ {
+			if k == n-1 && lineEnd {
+				sb.WriteString(c20LineComment(r)) // block comments, then a line comment up to the line end
+				break
 			}
-			s += lc
-		} else {
-			s += c20BlockASCII(r)
+			sb.WriteString(c20Block(r, r.Chance(15)))
+			if r.Bool() {
+				sb.WriteString(c20Blanks(r))
+			}
+		}
+		s := sb.String()
+		if lineEnd { // nothing may follow the line comment on its line
+			if r.Bool() {
+				s = c20Blanks(r) + s
+			}
+			return c20Ins{g.Off, s, kind}, true
 		}
 		return c20Ins{g.Off, pad(s), kind}, true
 	}
 	return c20Ins{}, false
 }
 
-var c20Kinds = []string{"blanks", "blanks", "block", "block", "block-multiline", "linecomment", "blankline", "break", "break"}
+var c20Kinds = []string{"blanks", "blanks", "block", "block", "block-multiline", "comments", "comments", "linecomment", "blankline", "break", "break"}
 
 // ---------------------------------------------------------------- extra statements (maps, sets, pipes, attributes)
 
@@ -746,25 +746,6 @@ func c20NonTrivial(p *N) bool {
 
 // ---------------------------------------------------------------- the layout stream
 
-// a block comment whose body begins with `/`: the lexer takes `/*/` for a complete comment
-func c20SlashBodyGuard(ins []c20Ins) bool {
-	for _, in := range ins {
-		if strings.HasPrefix(in.Kind, "block") && strings.Contains(in.Text, "/*/") {
-			return true
-		}
-	}
-	return false
-}
-
-func c20AdjacentGuard(ins []c20Ins) bool {
-	for _, in := range ins {
-		if in.Kind == "adjacent" {
-			return true
-		}
-	}
-	return false
-}
-
 func c20Layout(e *Env, r *RNG, p *N, id string, perGap bool, nMix int) {
 	src := Src(p)
 	base := c20Observe(src, true)
@@ -825,7 +806,7 @@ func c20Layout(e *Env, r *RNG, p *N, id string, perGap bool, nMix int) {
 		case 0:
 			kinds = []string{"blanks"}
 		case 1:
-			kinds = []string{"block", "block-multiline"}
+			kinds = []string{"block", "block-multiline", "comments"}
 		case 2:
 			kinds = []string{"break", "blankline", "linecomment"}
 		}
@@ -838,25 +819,18 @@ func c20Layout(e *Env, r *RNG, p *N, id string, perGap bool, nMix int) {
 		}
 		vs = append(vs, variant{ins, r.Chance(30), "mix"})
 	}
-	// the recorded defect, a few times per program
+	// several comments in one gap, a few times per program (the repaired defect)
 	for m := 0; m < 2; m++ {
 		g := Pick(r, gaps)
-		in, _ := c20Insertion(r, g, "adjacent")
-		vs = append(vs, variant{[]c20Ins{in}, false, "adjacent"})
+		in, _ := c20Insertion(r, g, "comments")
+		vs = append(vs, variant{[]c20Ins{in}, r.Chance(10), "comments"})
 	}
 
 	srcs := make([]string, len(vs))
 	for i, v := range vs {
-		if c20AdjacentGuard(v.ins) || c20SlashBodyGuard(v.ins) {
-			// the text of a mis-lexed comment is lexed as tokens (and may open a string that swallows
-			// later comments): keep the whole variant inside the lexer model's alphabet
-			for k := range v.ins {
-				v.ins[k].Text = strings.NewReplacer("é", "e", "→", ">").Replace(v.ins[k].Text)
-			}
-		}
 		srcs[i] = c20Apply(runes, append([]c20Ins{}, v.ins...), v.crlf)
 	}
-	agree := c20LexCheck(e, srcs, "layout variant")
+	c20LexCheck(e, srcs, "layout variant")
 	for i, v := range vs {
 		vsrc := srcs[i]
 		e.R.Case(vsrc, nt && vsrc != src)
@@ -891,14 +865,8 @@ func c20Layout(e *Env, r *RNG, p *N, id string, perGap bool, nMix int) {
 			continue
 		}
 		e.R.H("layout_verdict", "DIFFERENT")
-		finding := ""
-		if c20AdjacentGuard(v.ins) && agree[i] {
-			finding = c20_fAdjacent
-		} else if c20SlashBodyGuard(v.ins) && agree[i] {
-			finding = c20_fSlashBody
-		}
 		detail := fmt.Sprintf("%s | insertions: %v | original program (%s):\n%s", bad, c20_describeIns(v.ins, v.crlf), id, src)
-		e.R.Spec(vsrc, detail, finding)
+		e.R.Spec(vsrc, detail, "")
 	}
 }
 
@@ -1189,6 +1157,7 @@ var c20Lexemes = []string{
 	"+", "++", "+=", "-", "--", "-=", "*", "**", "*=", "/", "/=", "%", "<", "<<", "<=", "<-", ">", ">>", ">=", "=", "==", "!", "!=", "&", "&&", "|", "||", ":", ":=",
 	";", "?", "(", ")", ",", ".", "{", "}", "[", "]", "\n", "\r\n", "\r", "~", "@", "$", "^", "\\",
 	"// c", "# c", "/* c */", "/**/", "/*/", "/* a\nb */", "/* open", "/* a */ /* b */", "/* a */ // b", "/* a */# b", "/***/", "/* * / */",
+	"/*/ a */", "/*/*/", "/*//*/", "/* a *//* b */", "/*/**/ /*#*/",
 }
 
 func c20Soup(e *Env, r *RNG, n int) {
@@ -1218,7 +1187,7 @@ func c20Soup(e *Env, r *RNG, n int) {
 	}
 }
 
-// ---------------------------------------------------------------- directed cases (recorded defects + fixed layouts)
+// ---------------------------------------------------------------- directed cases (recorded and repaired defects + fixed layouts)
 
 func c20Directed(e *Env) {
 	// layout pairs: (original, variant) that must parse alike
@@ -1241,29 +1210,47 @@ func c20Directed(e *Env) {
 		}
 	}
 	c20LexCheck(e, []string{pairs[0][1], pairs[2][1], pairs[3][1]}, "directed")
-	// the recorded defects
-	adj := "1 /* a */ /* b */ + 2"
-	ag := c20LexCheck(e, []string{adj}, "directed")
-	a, b := c20Observe("1 + 2", false), c20Observe(adj, false)
-	e.R.Case(adj, false)
-	if b.PErr != nil || a.AST != b.AST {
-		f := ""
-		if ag[0] {
-			f = c20_fAdjacent
+	// the two repaired block-comment defects of the lexer and their neighbourhood: several
+	// comments in one gap, bodies beginning with `/`; a recurrence is an unlisted violation
+	a := c20Observe("1 + 2", false)
+	for _, v := range []string{
+		"1 /* a */ /* b */ + 2",         // was C20-adjacent-comments
+		"1 /*/ a */ + 2",                // was C20-block-comment-body-starting-with-slash
+		"1 /* a *//* b */\t/* c */ + 2", // three, abutting and separated
+		"1 + /* a */ /*/ b */ 2",
+		"1 /**/ /***/ /*/*/ + /* /* */ 2",
+		"/* a */ /* b */ 1 + 2",       // before the first token
+		"1 + 2 /* a */ /* b */",       // after the last token
+		"1 + 2 /* a */ // b",          // a block comment, then a line comment up to the end of the text
+		"1 + 2 /* a */ /* b */ # c",   // … after two block comments
+		"1 /* a\r\n b */ /* c */ + 2", // CRLF inside a comment
+	} {
+		c20LexCheck(e, []string{v}, "directed")
+		b := c20Observe(v, false)
+		e.R.Case(v, false)
+		e.R.H("directed", "comments in one gap")
+		if b.PErr != nil || b.Panic != "" || a.AST != b.AST {
+			e.R.Spec(v, fmt.Sprintf("comments between tokens change the parse: `1 + 2` parses to %q but %q gives %q (%v %s)", a.AST, v, b.AST, b.PErr, b.Panic), "")
 		}
-		e.R.Spec(adj, fmt.Sprintf("two adjacent block comments between tokens: `1 + 2` parses to %q but the variant gives %v", a.AST, b.PErr), f)
 	}
-	slash := "1 /*/ a */ + 2"
-	ag2 := c20LexCheck(e, []string{slash}, "directed")
-	b2 := c20Observe(slash, false)
-	e.R.Case(slash, false)
-	if b2.PErr != nil || a.AST != b2.AST {
-		f := ""
-		if ag2[0] {
-			f = c20_fSlashBody
+	// statements: block comments followed by a line comment at a line end, with LF and CRLF
+	for _, pr := range [][2]string{
+		{"x := 1\ny := 2\n", "x := 1 /* a */ // b\ny := 2 /* c */ /* d */ # e\n"},
+		{"x := 1\ny := 2\n", "x := 1 /* a */ /*/ b */ // c\r\ny := /* d */\t/* e */ 2\r\n"},
+		{"x := 4 / 2\n", "x := 4 / /* a */ /* b */ 2\n"},   // a `/` that is division next to comments
+		{"x := 4 / 2\n", "x := 4 /* a */ /* b */ / 2\n"},
+		{"x := 4\nx /= 2\n", "x := 4\nx /* a */ /* b */ /= /*/*/ 2\n"},
+	} {
+		c20LexCheck(e, []string{pr[1]}, "directed")
+		a, b := c20Observe(pr[0], false), c20Observe(pr[1], false)
+		e.R.Case(pr[1], false)
+		e.R.H("directed", "comments in one gap")
+		if a.PErr != nil || b.PErr != nil || a.AST != b.AST {
+			e.R.Spec(pr[1], fmt.Sprintf("directed layout pair: %q parses to %q (%v), %q parses to %q (%v)", pr[0], a.AST, a.PErr, pr[1], b.AST, b.PErr), "")
 		}
-		e.R.Spec(slash, fmt.Sprintf("a block comment whose body begins with `/`: `1 + 2` parses to %q but the variant gives %v", a.AST, b2.PErr), f)
 	}
+	// unterminated block comments keep their behaviour (model correspondence only)
+	c20LexCheck(e, []string{"1 /*", "1 /*/", "1 /* a */ /* b", "1 /* a */ /*/", "1 /* a */ /", "/*", "/**", "/* a */", "/* a */ /* b */\n"}, "directed")
 	// the first two: spans that leave their line (a backtick string with a newline; a token
 	// whose recorded start is the start of a two-line block comment) — they made
 	// FriendlyErrorMessage panic before the repair of C20-multiline-span-render-panic
